@@ -107,6 +107,8 @@ var (
 	astCacheTTLOnce         sync.Once         // ensures TTL is set only once
 	astCacheCleanupInterval = astCacheTTL / 2 // how often to run cleanup
 	astCacheCleanupOnce     sync.Once         // ensures cleanup interval set only once
+	// astCacheCleanupIntervalSet records that the interval was set explicitly (guarded by cacheConfigMutex)
+	astCacheCleanupIntervalSet bool
 
 	// Cache lifecycle management
 	cacheCleanupMutex sync.Mutex         // protects cleanup goroutine lifecycle
@@ -128,11 +130,12 @@ var (
 func SetASTCacheTTLOnce(d time.Duration) {
 	astCacheTTLOnce.Do(func() {
 		cacheConfigMutex.Lock()
-		// Keep the cleanup interval at half the TTL as long as it still holds the value derived
-		// from the previous TTL, i.e. it was not set explicitly. This must not consume
-		// astCacheCleanupOnce: otherwise a later SetASTCacheCleanupIntervalOnce call (the order
-		// documented in the README and used by the CLI) would be silently ignored.
-		if astCacheCleanupInterval == astCacheTTL/2 {
+		// Keep the cleanup interval at half the TTL as long as it was not set explicitly. This
+		// must not consume astCacheCleanupOnce: otherwise a later SetASTCacheCleanupIntervalOnce
+		// call (the order documented in the README and used by the CLI) would be silently
+		// ignored. Whether it was set is remembered, not guessed from its value: an interval set
+		// to exactly half the previous TTL is explicit too.
+		if !astCacheCleanupIntervalSet {
 			astCacheCleanupInterval = d / 2
 		}
 		astCacheTTL = d
@@ -147,6 +150,7 @@ func SetASTCacheCleanupIntervalOnce(d time.Duration) {
 	astCacheCleanupOnce.Do(func() {
 		cacheConfigMutex.Lock()
 		astCacheCleanupInterval = d
+		astCacheCleanupIntervalSet = true
 		cacheConfigMutex.Unlock()
 	})
 }
